@@ -2672,6 +2672,9 @@ impl<'a> AstResolver<'a> {
         span: SourceSpan,
         packages: &mut IndexMap<BorrowedPackageKey<'a>, Vec<u8>>,
     ) -> ResolutionResult<PackageId> {
+        #[cfg(wac_verif)]
+        verif::record_requested_package(name, version);
+
         match state.graph.get_package_by_name(name, version) {
             Some((id, _)) => Ok(id),
             None => {
@@ -2770,5 +2773,26 @@ impl<'a> AstResolver<'a> {
         }
 
         Ok(())
+    }
+}
+
+/// Verification hook (only with `--cfg wac_verif`): a thread-local log of the package keys
+/// that `AstResolver::resolve_package` is asked for during resolution.
+#[cfg(wac_verif)]
+pub mod verif {
+    use semver::Version;
+    use std::cell::RefCell;
+
+    thread_local! {
+        static REQUESTED: RefCell<Vec<(String, Option<Version>)>> = const { RefCell::new(Vec::new()) };
+    }
+
+    pub(super) fn record_requested_package(name: &str, version: Option<&Version>) {
+        REQUESTED.with(|r| r.borrow_mut().push((name.to_string(), version.cloned())));
+    }
+
+    /// Returns and clears the log of requested package keys of the current thread.
+    pub fn take_requested_packages() -> Vec<(String, Option<Version>)> {
+        REQUESTED.with(|r| std::mem::take(&mut *r.borrow_mut()))
     }
 }
